@@ -166,7 +166,9 @@ def report_pickup_request(
     :return: a pickup request report
     """
 
-    event_sim_time = next_sim.sim_time - next_sim.sim_timestep_duration_seconds
+    # the state passed in has not been ticked yet: its sim_time is the time of the pickup
+    # (as for the drop-off report); subtracting a step reported pickups before the request's departure
+    event_sim_time = next_sim.sim_time
 
     geoid = vehicle.geoid
     lat, lon = h3.h3_to_geo(geoid)
